@@ -60,8 +60,10 @@ Definition stat_of (n : node) : pystat := mkPyStat (n_v0 n) (n_value n) (Z.of_na
 Record pyconfig := mkPyConfig {
   cfg_cutoff_prob : Q;
   cfg_root_noise_alpha : option Q;
-  cfg_root_noise_mix : Q            (* Optional[float] in the source; None is not modelled *)
-}.
+  cfg_root_noise_mix : Q;           (* Optional[float] in the source; None is not modelled *)
+  cfg_time_limit : Q;
+  cfg_simulation_limit : Z
+}.                                  (* Config.C is a float handed to the multiplier: a separate oracle-typed value *)
 
 (* ---------- numbers ---------- *)
 (* a / b on floats: ZeroDivisionError *)
@@ -128,3 +130,93 @@ Definition ft_idiv_scalar (t : list Q) (s : Q) : res (list Q) :=
 (* x / d for a float x and an int d (the multiplier's division): ZeroDivisionError *)
 Definition py_fdiv_int {F} (f_div_int : F -> Z -> F) (x : F) (d : Z) : res F :=
   if d =? 0 then Crash ZeroDivisionError else Ok (f_div_int x d).
+
+(* ====================================================================== *)
+(* The search loop: MCTS.descend / analyze_tree / analyze / get_move /     *)
+(* select_root_move / tree_probs                                           *)
+(* ====================================================================== *)
+(* THE TREE AS A HEAP.  The Python code holds references to Node objects and
+   mutates them in place: descend() collects the nodes of the path in a list,
+   populate(path[-1], ..) rewrites the leaf, update(path) rewrites every node of
+   the path.  The translation threads ONE immutable tree (`hp`, the node the
+   search was started on) instead and represents a reference to a node by its
+   PLACE: the child indices that lead to it from that root.  Reading an
+   attribute of a reference reads through the tree; a call that mutates the
+   object behind a reference reads the node at the place, applies the
+   (functional) translation of the callee and writes the result back at the
+   place.  This is the semantics of the in-place code PROVIDED the objects
+   form a tree: every node is reachable from the root by exactly one chain of
+   `children[i]` and no list / position is shared between two nodes in a way
+   a write could be seen through.  That proviso is not proved here; it is what
+   C08's position snapshots and C05 check on the implementation. *)
+Definition place := list Z.
+Definition place_eqb (a b : place) : bool := list_eqb Z.eqb a b.   (* `a is b` for two references *)
+
+(* x[...] / iteration over children that are None: TypeError *)
+Definition pn_children_list (n : pynode) : res (list pynode) :=
+  match pn_children n with Some ks => Ok ks | None => Crash TypeError end.
+
+Fixpoint pt_get (n : pynode) (pl : place) : res pynode :=
+  match pl with
+  | [] => Ok n
+  | c :: r => ks <- pn_children_list n ;; k <- py_getitem ks c ;; pt_get k r
+  end.
+Fixpoint pt_set (n : pynode) (pl : place) (x : pynode) : res pynode :=
+  match pl with
+  | [] => Ok x
+  | c :: r =>
+    ks <- pn_children_list n ;; k <- py_getitem ks c ;; k' <- pt_set k r x ;;
+    ks' <- py_setitem ks c k' ;; ret (set_pn_children n (Some ks'))
+  end.
+(* ref.children[i]: the place of that child (Python's index rule; the place keeps the position counted from 0) *)
+Definition pt_child (hp : pynode) (pl : place) (i : Z) : res place :=
+  n <- pt_get hp pl ;; ks <- pn_children_list n ;;
+  match py_index (zlen ks) i with Some k => Ok (pl ++ [k]) | None => Crash IndexError end.
+
+(* calling a translated method that mutates the node behind a reference *)
+Definition pt_with_node (hp : pynode) (pl : place) (f : pynode -> res pynode) : res pynode :=
+  n <- pt_get hp pl ;; n' <- f n ;; pt_set hp pl n'.
+
+(* update(path) on a list of references: the statistics records of those nodes go in, the updated records are
+   written back.  Only for pairwise distinct places (a node occurring twice in the list would be updated twice by
+   the in-place code): otherwise no position is taken *)
+Definition pn_stat (n : pynode) : pystat := mkPyStat (pn_v_zero n) (pn_value n) (pn_simulations n).
+Definition pn_set_stat (n : pynode) (s : pystat) : pynode :=
+  match n with PyNode p m _ _ _ c k => PyNode p m (ps_v_zero s) (ps_value s) (ps_simulations s) c k end.
+Fixpoint places_distinct (l : list place) : bool :=
+  match l with
+  | [] => true
+  | a :: t => negb (existsb (place_eqb a) t) && places_distinct t
+  end.
+Definition pt_stats (hp : pynode) (path : list place) : res (list pystat) :=
+  py_mapM (fun pl => n <- pt_get hp pl ;; ret (pn_stat n)) path.
+Fixpoint pt_put_stats (hp : pynode) (path : list place) (sts : list pystat) : res pynode :=
+  match path, sts with
+  | [], [] => Ok hp
+  | pl :: path', s :: sts' =>
+    n <- pt_get hp pl ;; hp' <- pt_set hp pl (pn_set_stat n s) ;; pt_put_stats hp' path' sts'
+  | _, _ => Crash Unmodelled
+  end.
+Definition pt_with_stats (hp : pynode) (path : list place) (f : list pystat -> res (list pystat)) : res pynode :=
+  if places_distinct path then sts <- pt_stats hp path ;; sts' <- f sts ;; pt_put_stats hp path sts'
+  else Crash Unmodelled.
+
+(* Node(position=p, move=None): the root of a new tree *)
+Definition py_new_root (p : position) : pynode := PyNode p None 0 0 0 None None.
+
+(* ---------- oracles with state: the sampler, the clock, the network, the Dirichlet sample ---------- *)
+Definition M (S A : Type) : Type := S -> res (A * S).
+Definition mret {S A} (v : A) : M S A := fun s => Ok (v, s).
+Definition mbind {S A B} (c : M S A) (k : A -> M S B) : M S B :=
+  fun s => match c s with Ok (v, s') => k v s' | Illegal => Illegal | Crash e => Crash e end.
+Definition lift {S A} (c : res A) : M S A :=
+  fun s => match c with Ok v => Ok (v, s) | Illegal => Illegal | Crash e => Crash e end.
+Definition mcrash {S A} (e : exn) : M S A := fun _ => Crash e.
+Notation "x <~ c ;; k" := (mbind c (fun x => k)) (at level 61, c at next level, right associativity).
+Notation "' pat <~ c ;; k" := (mbind c (fun x => match x with pat => k end))
+  (at level 61, pat pattern, c at next level, right associativity).
+
+(* time: a float, or float("inf") kept symbolic *)
+Inductive xtime := TFin (t : Q) | TInf.
+Definition xt_gt (now : Q) (deadline : xtime) : bool :=
+  match deadline with TFin d => negb (Qle_bool now d) | TInf => false end.
